@@ -90,7 +90,7 @@ def run(module, consts=None, invariants=(), properties=(), view=None, constraint
         f.write("\n".join(mc) + "\n")
     with open(os.path.join(d, "MC.cfg"), "w") as f:
         f.write("\n".join(cfg) + "\n")
-    cmd = ["java", f"-Xmx{xmx}", "-XX:+UseParallelGC", "-cp", JAR, "tlc2.TLC", "-workers", str(workers),
+    cmd = ["java", f"-Xmx{xmx}", "-XX:+UseParallelGC", f"-Djava.io.tmpdir={d}", "-cp", JAR, "tlc2.TLC", "-workers", str(workers),
            "-metadir", os.path.join(d, "meta"), "-noGenerateSpecTE", "-config", "MC.cfg"]
     if simulate:
         cmd += ["-simulate", f"num={simulate[0]}", "-depth", str(simulate[1])]
